@@ -60,6 +60,16 @@ Theorem C12_last_report_is_total_quiet_verify : forall c s r,
 Proof. exact last_call_reports_total_quiet_verify. Qed.
 Print Assumptions C12_last_report_is_total_quiet_verify.
 
+(* the same for hashing runs: a run with a progress callback over readable content that returns a verdict without
+   having been told to stop made its last report with done = total *)
+Theorem C12_last_report_is_total_unstopped : forall c s r hs,
+  (1 <= cf_hashers c)%nat -> reach c s -> cf_verify c = None -> has_user_cb c = true ->
+  yielded (cf_items c) = map RPiece hs -> cf_total c = zlen hs -> 0 < cf_total c ->
+  s_result s = Some r -> verdict r -> s_stop s = false ->
+  exists pre idx e, s_calls s = pre ++ [(cf_total c, idx, e)].
+Proof. exact last_call_reports_total_unstopped_generate. Qed.
+Print Assumptions C12_last_report_is_total_unstopped.
+
 (* non-vacuity: a verification with a passive callback over three items of which the second carries a read error:
    the run returns False and its last report is (3, _, _) *)
 Example C12_quiet_verify_example :
